@@ -90,6 +90,8 @@ pub struct Inst {
     /// null-vs-absent flag for optional keys when writing JSON (both are documented inputs:
     /// model/resources/small_test_input_with_null_values.json)
     pub nulls: bool,
+    /// optional `dayLimit` per location (present in the shipped example; stored by the loader)
+    pub day_limits: Vec<Option<u64>>,
 }
 
 // ---------------------------------------------------------------------------------------------
@@ -130,6 +132,17 @@ pub fn parse_time(s: &str) -> Option<i64> {
     let n: Vec<i64> = parts.iter().map(|p| p.parse::<i64>().ok()).collect::<Option<Vec<_>>>()?;
     let sec = if n.len() == 6 { n[5] } else { 0 };
     Some(days_from_civil(n[0], n[1], n[2]) * 86400 + n[3] * 3600 + n[4] * 60 + sec)
+}
+
+/// the loader also documents the short form "2009-4-15T12:10" (no padding, no seconds)
+pub fn fmt_time_short(t: i64) -> String {
+    let days = t.div_euclid(86400);
+    let s = t.rem_euclid(86400);
+    if s % 60 != 0 {
+        return fmt_time(t);
+    }
+    let (y, m, d) = civil_from_days(days);
+    format!("{}-{}-{}T{}:{}", y, m, d, s / 3600, (s / 60) % 60)
 }
 
 pub fn fmt_time(t: i64) -> String {
@@ -287,6 +300,7 @@ impl Inst {
                 idle: req_u64(c, "idle")?,
             },
             nulls: false,
+            day_limits: v.get("locations").and_then(|l| l.as_array()).map(|a| a.iter().map(|x| x.get("dayLimit").and_then(|d| d.as_u64())).collect()).unwrap_or_default(),
         })
     }
 
@@ -319,7 +333,21 @@ impl Inst {
                     .collect(),
             ),
         );
-        root.insert("locations".into(), Value::Array(self.locs.iter().map(|l| json!({"id": l})).collect()));
+        root.insert(
+            "locations".into(),
+            Value::Array(
+                self.locs
+                    .iter()
+                    .enumerate()
+                    .map(|(i, l)| {
+                        let mut m = Map::new();
+                        m.insert("id".into(), json!(l));
+                        put_opt(&mut m, "dayLimit", self.day_limits.get(i).copied().flatten());
+                        Value::Object(m)
+                    })
+                    .collect(),
+            ),
+        );
         match &self.depots {
             Some(ds) => {
                 root.insert(
